@@ -560,7 +560,14 @@ class CodeGenMapper(Mapper[ImplementedResult, Never, [CodeGenState]]):
             from pytato.utils import are_shape_components_equal
             result_is_empty = any(
                 are_shape_components_equal(s_i, 0) for s_i in expr.shape)
-            if not result_is_empty:
+            # The stores of the reduction bound temporaries below are nested
+            # in *inames*, so their (empty) domain is needed even if the
+            # result is empty.
+            has_bound_temps = any(
+                not is_quasi_affine(bound)
+                for bounds in loopy_redn_bounds.values()
+                for bound in bounds)
+            if not result_is_empty or has_bound_temps:
                 domain = domain_for_shape(inames, loopy_shape, {})
                 state.update_kernel(
                     state.kernel.copy(domains=[*state.kernel.domains, domain]))
